@@ -18,6 +18,7 @@ const repoModule = "github.com/celestiaorg/go-header"
 // Engine holds the loaded program, the contracts and global naming state.
 type Engine struct {
 	repo    string
+	activeProp string // property being checked ("" = none): selects tagged atomic declarations
 	prog    *ssa.Program
 	pkgs    map[string]*ssa.Package // short name -> package
 	tpkgs   map[string]*types.Package
@@ -104,7 +105,17 @@ func loadEngine(repo string, specDir string) (*Engine, error) {
 		e.indexPackage(sn, sp)
 	}
 	// also index types packages of dependencies we refer to in specs
-	for _, p := range prog.AllPackages() {
+	allPkgs := prog.AllPackages()
+	// deterministic, shortest import path first: "context" must mean the standard library package even
+	// when a dependency's path also ends in /context
+	sort.Slice(allPkgs, func(i, j int) bool {
+		a, b := allPkgs[i].Pkg.Path(), allPkgs[j].Pkg.Path()
+		if len(a) != len(b) {
+			return len(a) < len(b)
+		}
+		return a < b
+	})
+	for _, p := range allPkgs {
 		sn := shortPkg(p.Pkg.Path())
 		if _, ok := e.tpkgs[sn]; !ok {
 			e.tpkgs[sn] = p.Pkg
@@ -356,4 +367,56 @@ func (e *Engine) lookupNamedType(pkg, name string) types.Type {
 		return tn.Type()
 	}
 	return nil
+}
+
+// atomicFor: the rely/guarantee relation declared for an atomic field, if active for the property under check.
+// Without an active declaration an atomic is given sequential semantics (single-writer view).
+func (e *Engine) atomicFor(key string) *ChanInv {
+	ai := e.atomics[key]
+	if ai == nil || len(ai.Tags) == 0 {
+		return ai
+	}
+	for _, t := range ai.Tags {
+		if t == e.activeProp {
+			return ai
+		}
+	}
+	return nil
+}
+
+// applyMode: when the property under check activates a rely/guarantee relation on an atomic (concurrent
+// reading of the code), clauses tagged `seq` -- which are only meant under the sequential, single-writer
+// reading of atomics -- are dropped from every contract: they are neither assumed nor asserted.
+func (e *Engine) applyMode() {
+	active := false
+	for _, ai := range e.atomics {
+		if len(ai.Tags) > 0 && e.atomicFor(ai.Pkg+"."+ai.Key) != nil {
+			active = true
+		}
+	}
+	if !active {
+		return
+	}
+	keep := func(cs []Clause) []Clause {
+		var out []Clause
+		for _, c := range cs {
+			seq := false
+			for _, t := range c.Tags {
+				if t == "seq" {
+					seq = true
+				}
+			}
+			if !seq {
+				out = append(out, c)
+			}
+		}
+		return out
+	}
+	for _, sp := range e.specs {
+		sp.Requires = keep(sp.Requires)
+		sp.Ensures = keep(sp.Ensures)
+		for _, l := range sp.Loops {
+			l.Invariants = keep(l.Invariants)
+		}
+	}
 }
